@@ -42,6 +42,12 @@ Theorem C16_helper_value_unpadded_refuted : exists pi : bytes,
 Proof. exact helper_unpadded_refuted. Qed.
 Print Assumptions C16_helper_value_unpadded_refuted.
 
+(* the guard that excludes it: a proof whose first byte is not zero (255 of 256 proofs) *)
+Theorem C16_helper_value_guarded : forall pi : bytes,
+  bytes_ok pi -> hd 1%N pi <> 0%N -> helper_prove2value (big_of_bytes pi) = bev (proof2hash pi).
+Proof. exact helper_value_guarded. Qed.
+Print Assumptions C16_helper_value_guarded.
+
 (* isCanonical as typed in vrf.go (uint8 arithmetic) is the constant 1: non-reduced y are accepted *)
 Theorem C16_is_canonical_go_const : forall s : bytes, is_canonical_go s = 1%N.
 Proof. exact is_canonical_go_const. Qed.
@@ -119,12 +125,30 @@ Theorem C16_complete : forall (W : World) (x t : Z) (m : Msg W),
 Proof. exact complete. Qed.
 Print Assumptions C16_complete.
 
+(* ... also after the header transport: encode to 80 bytes (any encoder the decoder inverts on this
+   proof), carry as a big integer, read back, pad, decode, verify *)
+Theorem C16_complete_after_transport :
+  forall (W : World) (enc : proof W -> bytes) (dec : bytes -> option (proof W)) x t (m : Msg W),
+  let p := prove W x t m in
+  dec (enc p) = Some p -> bytes_ok (enc p) -> length (enc p) = prove_size ->
+  verify_via (verify_bytes W dec (pubkey W x) m) (transport (enc p)) = true.
+Proof. exact complete_after_transport. Qed.
+Print Assumptions C16_complete_after_transport.
+
 (* proof generation has no random input: it is the function [prove] of key and message
    (vrfNonceGeneration hashes the key's second half and H) *)
 Theorem C16_deterministic : forall (W : World) (x t : Z) (m : Msg W) p1 p2,
   p1 = prove W x t m -> p2 = prove W x t m -> p1 = p2.
 Proof. exact deterministic. Qed.
 Print Assumptions C16_deterministic.
+
+(* the verifier reduces s modulo ell: s + j*ell is accepted exactly when s is, with the same Gamma
+   (the proof string is malleable in s, the lottery output is not) *)
+Theorem C16_s_reduced_mod_ell : forall (W : World) (Y Gm : G W) (c s j : Z) (m : Msg W),
+  verify W Y (Gm, c, s + j * ell W) m = verify W Y (Gm, c, s) m /\
+  output_enc W (Gm, c, s + j * ell W) = output_enc W (Gm, c, s).
+Proof. exact s_reduced_mod_ell. Qed.
+Print Assumptions C16_s_reduced_mod_ell.
 
 (* a prover who knows x can shift Gamma by any point T with c*T = 0 and is accepted *)
 Theorem C16_shifted_accepted : forall (W : World) (x : Z) (m : Msg W) (T : G W) (k : Z),
@@ -169,6 +193,23 @@ Theorem C16_output_unique_cofactor : forall (W : World) (x : Z) (m : Msg W) (p1 
   output_cof W p1 = output_cof W p2 \/ lucky_hit W x m p1 \/ lucky_hit W x m p2.
 Proof. exact output_cof_unique_or_lucky. Qed.
 Print Assumptions C16_output_unique_cofactor.
+
+(* the exact guard under which the raw-encoding output (what VRFProof2Hash returns) is unique as
+   well: both Gammas lie in the prime-order subgroup — a subgroup check in decodeProof, which the
+   code does not make ("We do not check whether the point is on the main subgroup") *)
+Theorem C16_output_unique_encoding_guarded : forall (W : World) (x : Z) (m : Msg W) (p1 p2 : proof W),
+  2 < ell W ->
+  smul W (ell W) (output_enc W p1) = zero W -> smul W (ell W) (output_enc W p2) = zero W ->
+  verify W (pubkey W x) p1 m = true -> verify W (pubkey W x) p2 m = true ->
+  output_enc W p1 = output_enc W p2 \/ lucky_hit W x m p1 \/ lucky_hit W x m p2.
+Proof. exact output_enc_unique_in_subgroup. Qed.
+Print Assumptions C16_output_unique_encoding_guarded.
+
+(* honest provers meet that guard *)
+Theorem C16_honest_gamma_in_subgroup : forall (W : World) (x t : Z) (m : Msg W),
+  smul W (ell W) (output_enc W (prove W x t m)) = zero W.
+Proof. exact honest_gamma_in_subgroup. Qed.
+Print Assumptions C16_honest_gamma_in_subgroup.
 
 (* single-bit mutations, algebraic part (_partial: rejection itself needs the challenge hash to avoid
    the stated collision / prescribed value, which no theorem about an arbitrary function can give).
@@ -216,8 +257,10 @@ Print Assumptions C16_bit_mutation_input_partial.
    verifies, and the guard of the qn theorem is met by an accepted proof with qn = 2. *)
 Example C16_example :
   verify toy (pubkey toy 3) (prove toy 3 1 2) 2 = true /\
+  (forall x t m, let p := prove toy x t m in
+     toy_dec (toy_enc p) = Some p /\ bytes_ok (toy_enc p) /\ length (toy_enc p) = prove_size) /\
   (exists pi : bytes, bytes_okb pi = true /\ length pi = prove_size /\ hd 1%N pi = 0%N /\
      pad80 (transport pi) = pi /\ length (transport pi) = 79%nat) /\
   validate_exact node_params (51%N :: repeat 0%N 79) 1 0 10 = VR true (QN 4) /\
   validate_float node_params (51%N :: repeat 0%N 79) 1 0 10 = VR true (QN 4).
-Proof. split; [vm_compute; reflexivity | exact model_example]. Qed.
+Proof. split; [vm_compute; reflexivity | split; [exact toy_codec | exact model_example]]. Qed.
